@@ -215,7 +215,11 @@ func workMain(args []string) int {
 			break
 		}
 		runSeed := DeriveN(*seed, "run", idx)
-		params := prop.Gen(runSeed, *tier, idx)
+		genTier := *tier
+		if race {
+			genTier += "+race" // the -race batch uses smaller workloads (see DESIGN.md 2.4)
+		}
+		params := prop.Gen(runSeed, genTier, idx)
 		if race {
 			// a ThreadSanitizer report kills the process: leave the case behind first
 			pj, _ := json.Marshal(params)
@@ -542,7 +546,13 @@ func driveMain(args []string) int {
 	batches = append(batches, b1)
 	var b2 *batchResult
 	if race > 0 && *raceBin != "" && len(b1.candidates) == 0 {
-		b2 = runBatch(*raceBin, *propID, *tier, Derive(seed, "race"), race, *workers, tmp, "race", deadline)
+		// ThreadSanitizer's shadow-memory page faults do not scale across processes in
+		// this VM (measured: total throughput is flat from 1 to 16 workers): use 4.
+		rw := *workers
+		if rw > 4 {
+			rw = 4
+		}
+		b2 = runBatch(*raceBin, *propID, *tier, Derive(seed, "race"), race, rw, tmp, "race", deadline)
 		batches = append(batches, b2)
 	}
 
